@@ -91,7 +91,9 @@ TIE_NOTE_TEXT = (" Translated here with their run-time panics modelled (result N
                  "hex.DecodeString = Hex.hex_decode (the value returned together with a non-nil error is not modelled).")
 translate_tie.describe(PROPERTIES, "C15", "Frame.String and Frame.UnmarshalString of frame.go (= to_string / unmarshal_string) and Frame.JSON",
                        translate_tie.TIE_NOTE_INT, TIE_NOTE_TEXT)
-translate_tie.describe(PROPERTIES, "C16", "Frame.JSON of frame_json.go (= to_json; the decoding direction UnmarshalJSON is NOT translated) "
+translate_tie.describe(PROPERTIES, "C16", "Frame.JSON (= to_json) and Frame.UnmarshalJSON of frame_json.go (= of_doc / unmarshal_json: everything after the call "
+                       "json.Unmarshal(jsonData, &jf), which is an oracle parameter assumed to return what the model's read_doc "
+                       "returns - error, or nil and the five members; *string/*uint8/*bool members are options) "
                        "and Frame.String / Frame.UnmarshalString",
                        translate_tie.TIE_NOTE_INT, TIE_NOTE_TEXT)
 
